@@ -7,17 +7,73 @@ from pyvc.contracts import contract
 c = contract('sopclass.qr_find_scp')
 c.prop('C16', 'C17')
 ls = c.loop('', 0)
-ls.havoc_stmts = ['havoc_elem(rsp, "Status", "int")', 'havoc_elem(rsp, "CommandDataSetType", "int")',
-                  'havoc_attr(rsp, "_data_set", "bytes")', 'loop_havoc_sent()']
+# (applies while the code keeps one response object across iterations; an `rsp` created inside the
+# loop body carries nothing from one iteration to the next)
+ls.havoc_stmts = [('rsp', 'havoc_elem(rsp, "Status", "int")'), ('rsp', 'havoc_elem(rsp, "CommandDataSetType", "int")'),
+                  ('rsp', 'havoc_attr(rsp, "_data_set", "bytes")'), ('rsp', 'havoc_moved(rsp)')]
 
 # qr_move_scp: counters and the pending response's progress fields
 c = contract('sopclass.qr_move_scp')
 c.prop('C17', 'C19')
 ls = c.loop('', 0)
 ls.havoc = {'failed': 'int', 'warning': 'int', 'completed': 'int'}
-ls.havoc_stmts = ['havoc_elem(rsp, "Status", "int")',
-                  'havoc_elem(rsp, "NumberOfRemainingSuboperations", "int")',
-                  'havoc_elem(rsp, "NumberOfCompletedSuboperations", "int")',
-                  'havoc_elem(rsp, "NumberOfFailedSuboperations", "int")',
-                  'havoc_elem(rsp, "NumberOfWarningSuboperations", "int")', 'loop_havoc_sent()']
+ls.havoc_stmts = [('rsp', 'havoc_elem(rsp, "Status", "int")'),
+                  ('rsp', 'havoc_elem(rsp, "NumberOfRemainingSuboperations", "int")'),
+                  ('rsp', 'havoc_elem(rsp, "NumberOfCompletedSuboperations", "int")'),
+                  ('rsp', 'havoc_elem(rsp, "NumberOfFailedSuboperations", "int")'),
+                  ('rsp', 'havoc_elem(rsp, "NumberOfWarningSuboperations", "int")'),
+                  ('rsp', 'havoc_moved(rsp)')]
 ls.invariants = [('counts', 'failed >= 0 and warning >= 0 and completed >= 0')]
+
+# ---- C19 clauses of the C-MOVE loop: per iteration exactly one sub-operation on the current data
+# set and exactly one pending response that reports the progress *after* this sub-operation
+ls.for_prop('C19',
+            head=['_t0 = trace_len()', '_completed0 = completed'],
+            tail=['_stores = events_since(_t0, "sub-store")',
+                  'oblige("sub-operation-once", len(_stores) == 1 and _stores[0][1] is data_set)',
+                  '_sent = events_since(_t0, "send")',
+                  'oblige("one-pending-response", len(_sent) == 1)',
+                  'oblige("pending-status", len(_sent) != 1 or sent_field(_sent[0], "status") == 0xFF00)',
+                  'oblige("progress-completed", len(_sent) != 1 or '
+                  'sent_field(_sent[0], "num_of_completed_sub_ops") == _completed0 + 1)',
+                  'oblige("progress-remaining", len(_sent) != 1 or '
+                  'sent_field(_sent[0], "num_of_remaining_sub_ops") == nop - (_completed0 + 1))',
+                  'oblige("counter", completed == _completed0 + 1)'])
+
+# qr_get_scu: the receive loop of the C-GET user
+c = contract('sopclass.qr_get_scu')
+c.prop('C17', 'C19')
+ls = c.loop('', 0)
+ls.for_prop('C19', head=['_t0 = trace_len()', 'ghost_set("yields_at_head", ghost_get("yield_count", 0))'])
+ls.for_prop('C17', head=['_t0 = trace_len()', 'ghost_set("yields_at_head", ghost_get("yield_count", 0))'])
+_GET_TAIL = [
+    '_sent = events_since(_t0, "send")',
+    '_is_store = msg.command_field == 0x0001',
+    'oblige("store-request-answered-exactly-once", (len(_sent) == 1) if _is_store else (len(_sent) == 0))',
+    'oblige("answered-on-arrival-context", (not _is_store) or len(_sent) != 1 or _sent[0][3] == pc_id)',
+    'oblige("instance-handed-over-at-most-once", ghost_get("yield_count", 0) - ghost_get("yields_at_head", 0) '
+    '<= (1 if _is_store else 0))',
+]
+ls.for_prop('C19', tail=_GET_TAIL)
+
+
+# ---- C16 clauses of the C-FIND provider loop: one response per match, carrying that match
+_find_loop = contract('sopclass.qr_find_scp')
+ls = [v for k, v in __import__('pyvc.contracts', fromlist=['REGISTRY']).REGISTRY.loops.items()
+      if k == ('sopclass.qr_find_scp', 0)][0]
+ls.for_prop('C16',
+            head=['_t0 = trace_len()'],
+            tail=['_sent = events_since(_t0, "send")',
+                  'oblige("one-response-per-match", len(_sent) == 1)',
+                  'oblige("match-status", len(_sent) != 1 or sent_field(_sent[0], "status") == status)',
+                  'oblige("match-data", len(_sent) != 1 or sent_field(_sent[0], "data_set") == encoded_dataset(data_set))',
+                  'oblige("match-context", len(_sent) != 1 or _sent[0][3] == ctx.id)'])
+
+# qr_find_scu: the receive loop of the C-FIND user
+c = contract('sopclass.qr_find_scu')
+c.prop('C16')
+ls = c.loop('', 0)
+ls.for_prop('C16', head=['_t0 = trace_len()'],
+            tail=['_y = events_since(_t0, "yield")',
+                  'oblige("one-result-per-response", len(_y) == 1)',
+                  'oblige("continues-only-after-pending", response.status == 0xFF00 or response.status == 0xFF01)'])
